@@ -2,7 +2,7 @@
    retry it orders and every result it dispatches is the content of a message the server really sent
    (a frame injected by an LSrv label, or a message nested in one through msg_container / gzip_packed). *)
 From Coq Require Import ZArith List Bool Lia Arith.
-From MTV Require Import Client.Model Client.StepLemmas Client.SeqNo Client.Routing Client.Origin Client.Live Client.LiveInv.
+From MTV Require Import Client.Model Client.StepLemmas Client.SeqNo Client.Routing Client.Origin Client.Live Client.LiveInv Client.Salt Client.Alive.
 Import ListNotations.
 Open Scope Z_scope.
 Local Opaque wrap32 fresh_id.
@@ -85,8 +85,12 @@ Lemma adopt_warn2 : forall x, adopt (warn2 x) = adopt x.
 Proof. intros x. unfold warn2. destruct (wch x) as [|cap n]; [|destruct (Nat.ltb n cap)]; auto. Qed.
 Lemma adopt_handle2 : forall x, adopt (handle2 x) = adopt x.
 Proof. intros x. unfold handle2. destruct (handler x); auto. apply adopt_warn2. Qed.
-Lemma adopt_fail2 : forall x, adopt (fail2 x) = adopt x.
-Proof. intros x. unfold fail2. rewrite adopt_warn2. reflexivity. Qed.
+Lemma adopt_fail2 : forall tl x, adopt (fail2 tl x) = adopt x.
+Proof. reflexivity. Qed.
+Lemma adopt_flush' : forall s, adopt (flush s) = adopt s.
+Proof.
+  intros s. unfold flush. destruct (perr s); auto. destruct (rx (base s)); auto. rewrite adopt_warn2. reflexivity.
+Qed.
 
 Lemma srv_log_warn2 : forall s, srv_log (base (warn2 s)) = srv_log (base s).
 Proof. intros. rewrite base_warn2. auto. Qed.
@@ -111,7 +115,7 @@ Proof.
   assert (FRAMES : forall x, In x (rx_frames (rx (base (dispatch2 (sid, seq, b) ks s)))) ->
      In x (kitems ks) \/ exists items, strip b = BContainer items /\ In x items).
   { intros x. unfold dispatch2.
-    destruct (negb (decodes (hinted_for b (base s)) b)); [rewrite base_fail2; simpl; tauto|].
+    destruct (negb (decodes (hinted_for b (base s)) b)); [rewrite base_fail2; cbn [rx set_rx]; rewrite rx_frames_settle; cbn [kitems]; tauto|].
     destruct (strip b) eqn:SB;
       repeat match goal with |- context [lookup ?a ?t] => destruct (lookup a t) end;
       rewrite ?base_fail2, ?base_upd, ?base_handle2; cbn [base upd_base wb adopt2 rx set_rx set_salt log];
@@ -139,7 +143,7 @@ Proof.
     + exists sid, seq, b. auto.
 Qed.
 
-Lemma InvG_step : forall s l s', InvG s -> step2 s l = Some s' -> InvG s'.
+Lemma InvG_step2i : forall s l s', InvG s -> step2i s l = Some s' -> InvG s'.
 Proof.
   intros s l s' IG H. pose proof IG as [A B C D]. apply step2_inv in H. destruct H.
   - eapply InvG_step1; eauto. apply lifted_old_ok; auto.
@@ -156,6 +160,15 @@ Proof.
   - apply (InvG_mono s); simpl; auto; tauto.
 Qed.
 
+Lemma InvG_flush : forall s, InvG s -> InvG (flush s).
+Proof. intros s IG. apply (InvG_mono s); rewrite ?base_flush, ?adopt_flush'; auto. Qed.
+
+Lemma InvG_step : forall s l s', InvG s -> step2 s l = Some s' -> InvG s'.
+Proof.
+  intros s l s' IG H. apply step2_flush in H. destruct H as (s1 & H & E). subst.
+  apply InvG_flush. eapply InvG_step2i; eauto.
+Qed.
+
 Lemma InvG_run : forall c ls s, run2 (init2 c) ls = Some s -> InvG s.
 Proof. intros c. apply run2_invariant; [apply InvG_init|intros; eapply InvG_step; eauto]. Qed.
 
@@ -168,7 +181,7 @@ Proof.
   induction a as [|x a IH]; simpl; auto. intros. destruct x as [[| | |]| |]; simpl; rewrite ?IH; auto.
 Qed.
 
-Lemma srv_log_step2 : forall s l s', step2 s l = Some s' ->
+Lemma srv_log_step2i : forall s l s', step2i s l = Some s' ->
   srv_log (base s') = match l with L1 (LSrv f) => f :: srv_log (base s) | _ => srv_log (base s) end.
 Proof.
   intros s l s' H. apply step2_inv in H. destruct H; try reflexivity.
@@ -176,6 +189,13 @@ Proof.
   - rewrite base_warn2. reflexivity.
   - apply (d_srv _ _ (dispatch2_ok f ks s)).
   - apply notify_b_inv in H1. destruct H1 as [[_ E]|(t & k & j & L & P & K & E)]; subst b'; reflexivity.
+Qed.
+
+Lemma srv_log_step2 : forall s l s', step2 s l = Some s' ->
+  srv_log (base s') = match l with L1 (LSrv f) => f :: srv_log (base s) | _ => srv_log (base s) end.
+Proof.
+  intros s l s' H. apply step2_flush in H. destruct H as (s1 & H & E). subst. rewrite base_flush.
+  eapply srv_log_step2i; eauto.
 Qed.
 
 Lemma srv_log_run2 : forall c ls s, run2 (init2 c) ls = Some s -> srv_log (base s) = rev (srv_frames2 ls).
@@ -217,4 +237,103 @@ Proof.
     destruct (from_server_label _ _ _ _ H F) as (g & G1 & G2). exists g, sid, seq, b. auto.
   - intros req v X NV. destruct (D _ _ X) as (sid & seq & b & F & [Y|(Y & _)]); [|congruence].
     destruct (from_server_label _ _ _ _ H F) as (g & G1 & G2). exists g, sid, seq, b. auto.
+Qed.
+
+
+(* ---- every message of a container is dispatched, whatever happens to the others ------------------- *)
+
+Definition recv_of (f : frame) : event := ERecv (fst (fst f)) (snd (fst f)).
+
+Lemma dispatch2_recv : forall f ks s, In (recv_of f) (elog (base (dispatch2 f ks s))).
+Proof.
+  intros [[sid seq] b] ks s. unfold dispatch2, recv_of. cbn [fst snd].
+  destruct (negb (decodes (hinted_for b (base s)) b)); [rewrite base_fail2; simpl; auto|].
+  destruct (strip b);
+    repeat match goal with |- context [lookup ?a ?t] => destruct (lookup a t) end;
+    rewrite ?base_fail2, ?base_upd, ?base_handle2; simpl; auto.
+Qed.
+
+Lemma dispatch2_keeps : forall f ks s x, In x (kitems ks) -> In x (rx_frames (rx (base (dispatch2 f ks s)))).
+Proof.
+  intros [[sid seq] b] ks s x H. unfold dispatch2.
+  destruct (negb (decodes (hinted_for b (base s)) b));
+    [rewrite base_fail2; cbn [rx set_rx]; rewrite rx_frames_settle; exact H|].
+  destruct (strip b);
+    repeat match goal with |- context [lookup ?a ?t] => destruct (lookup a t) end;
+    rewrite ?base_fail2, ?base_upd, ?base_handle2; cbn [base upd_base wb adopt2 rx set_rx set_salt log];
+    rewrite ?rx_frames_settle; cbn [rx_frames kitems]; auto.
+  rewrite kitems_app. apply in_or_app. right. exact H.
+Qed.
+
+(* a frame leaves the work list of the receive loop (the frame at the dispatch pc + the items still on its stack)
+   only by being dispatched; nothing else - in particular no error in another message - removes it *)
+Lemma items_kept_i : forall s l s' f, step2i s l = Some s' -> In f (rx_frames (rx (base s))) ->
+  In f (rx_frames (rx (base s'))) \/
+  ((exists ks, rx (base s) = RDispatch f ks) /\ In (recv_of f) (elog (base s'))).
+Proof.
+  intros s l s' f H I. apply step2_inv in H. destruct H; cbn [base wb upd_base]; auto.
+  - (* lifted *) left. destruct l as [t h|[t|] clk|g|].
+    + step_cases H1; auto.
+    + step_cases H1; auto.
+    + simpl in H0. step_cases H1; try (destruct H0; fail); cbn [rx set_rx set_pc set_caller add_ret] in *;
+        rewrite ?rx_frames_settle; try (rewrite Heqr in I; cbn [rx_frames] in I); auto; try contradiction.
+    + step_cases H1; auto.
+    + step_cases H1; auto.
+  - rewrite base_warn2. rewrite H0 in I. destruct I.
+  - rewrite H0 in I. destruct I as [I|I].
+    + subst f0. right. split; [eauto|apply dispatch2_recv].
+    + left. apply dispatch2_keeps; auto.
+  - left. cbn [rx set_rx]. rewrite rx_frames_settle. rewrite H0 in I. exact I.
+  - left. rewrite H0 in I. apply notify_b_inv in H1. destruct H1 as [[_ E]|(t & k & j & L & P & K & E)]; subst b';
+      cbn [rx set_rx set_pc set_caller]; rewrite rx_frames_settle; exact I.
+  - rewrite H0 in I. destruct I.
+Qed.
+
+Lemma elog_mono_i : forall s l s' e, step2i s l = Some s' -> In e (elog (base s)) -> In e (elog (base s')).
+Proof.
+  intros s l s' e H I. apply step2_inv in H. destruct H; cbn [base wb upd_base]; auto.
+  - destruct l as [t h|[t|] clk|g|]; step_cases H1; simpl; auto.
+    apply dispatch_elog; auto.
+  - rewrite base_warn2. auto.
+  - apply (d_elog _ _ (dispatch2_ok f ks s)); auto.
+  - apply notify_b_inv in H1. destruct H1 as [[_ E]|(t & k & j & L & P & K & E)]; subst b'; auto.
+Qed.
+
+Lemma items_run : forall ls s s' f, run2 s ls = Some s' -> In f (rx_frames (rx (base s))) ->
+  In f (rx_frames (rx (base s'))) \/ In (recv_of f) (elog (base s')).
+Proof.
+  induction ls as [|l ls IH] using rev_ind; intros s s' f H I.
+  - inversion H. subst. auto.
+  - rewrite run2_app in H. destruct (run2 s ls) as [x|] eqn:E; [|discriminate].
+    apply step2_flush in H. destruct H as (s1 & H & EQ). subst s'. rewrite base_flush.
+    destruct (IH _ _ _ E I) as [J|J].
+    + destruct (items_kept_i _ _ _ _ H J) as [K|[_ K]]; auto.
+    + right. eapply elog_mono_i; eauto.
+Qed.
+
+(* hence: from every reachable state the client's own goroutines bring the receive loop back to its read, and by
+   then every message that was on its work list - the frame it stood before and all container items still to come,
+   whatever the messages before them were: undecodable, answers nobody waits for, bad_msg_notification - has been
+   dispatched (and, by C10_acks_live, acknowledged if its seq_no is odd) *)
+Lemma items_all_dispatched : forall c ls s, run2 (init2 c) ls = Some s -> keyed s = true ->
+  exists dl s1, Forall step_label dl /\ run2 s dl = Some s1 /\ rx (base s1) = RRead /\
+    forall f, In f (rx_frames (rx (base s))) -> In (recv_of f) (elog (base s1)).
+Proof.
+  intros c ls s H K. pose proof (Inv16_run _ _ _ H) as I.
+  destruct (drain (pot (base s)) s (le_n _) I K) as (dl & s1 & R & F & Q & _).
+  exists dl, s1. split; auto. split; auto. destruct Q as (Q1 & _). split; auto.
+  intros f J. destruct (items_run _ _ _ _ R J) as [X|X]; auto. rewrite Q1 in X. destruct X.
+Qed.
+
+(* the dispatch step on a container puts ALL its items on the stack, in order, before the container's own tail *)
+Lemma container_step : forall s clk sid seq b ks items, keyed s = true ->
+  rx (base s) = RDispatch (sid, seq, b) ks -> strip b = BContainer items ->
+  exists s', step2 s (L1 (LStep ARx clk)) = Some s' /\
+    rx (base s') = settle (map KItem items ++ KTail sid seq :: ks).
+Proof.
+  intros s clk sid seq b ks items K R SB. eexists. split.
+  - unfold step2. simpl. rewrite K. simpl. unfold step_rx2. rewrite R. reflexivity.
+  - rewrite base_flush. unfold dispatch2.
+    assert (D : decodes (hinted_for b (base s)) b = true) by (unfold decodes; rewrite SB; reflexivity).
+    rewrite D. simpl. rewrite SB. reflexivity.
 Qed.
